@@ -3,7 +3,8 @@
    nothing but marks of tokens inside [from, to) (C13). *)
 From Coq Require Import ZArith NArith List Bool Arith Lia.
 From PM Require Import Model.Data Model.Mark Model.Tree Model.Resolve Model.StepMap Model.Step Model.MarkOps Spec.Tokens
-  Proofs.ReplaceValid Proofs.TokenBasics Proofs.ReplaceTokens Proofs.SliceShape Proofs.TokenLaws Proofs.MarkSteps.
+  Proofs.ReplaceValid Proofs.TokenBasics Proofs.ReplaceTokens Proofs.SliceShape Proofs.TokenLaws Proofs.MarkSteps
+  Proofs.MarkPointwise Proofs.MarkMerge.
 Import ListNotations.
 Local Open Scope nat_scope.
 
@@ -149,6 +150,44 @@ Proof.
     split; [congruence|]. split; [|split; [|congruence]].
     + rewrite F2. exact (firstn_le_eq from f _ _ Hf F1).
     + rewrite S2. exact (skipn_le_eq t to _ _ Ht S1).
+Qed.
+
+(* ------------------------------------------------------------------ the effect of a run of mark steps, token by token
+   Token i of the result is token i of the starting document, re-marked in turn by every step whose range contains i -
+   each time by that step's rule ([step_updN]: add_to_set where the enclosing node's type allows the mark, on atoms;
+   remove_from_set on inline tokens), read in the context token i has in the STARTING document (mark steps never change
+   contexts). *)
+Definition touches_tok (st : step) (i : nat) : bool :=
+  match mark_step_range st with Some (f, t) => (f <=? i) && (i <? t) | None => false end.
+
+Definition apply_tok (pty : nat) (i : nat) (tk : tok) (st : step) : tok :=
+  if touches_tok st i then ftok s (step_updN s st) pty tk else tk.
+
+Definition IsMarkStep (st : step) : Prop := exists f t, mark_step_range st = Some (f, t).
+
+Theorem mark_run_pointwise : forall sts doc d',
+  Forall IsMarkStep sts -> RunV doc sts d' ->
+  node_ty s d' = node_ty s doc /\
+  length (DT d') = length (DT doc) /\
+  (forall i, ctxT (node_ty s doc) (DT d') i = ctxT (node_ty s doc) (DT doc) i) /\
+  forall i t0, nth_error (DT doc) i = Some t0 ->
+    nth_error (DT d') i = Some (fold_left (apply_tok (snd (ctxT (node_ty s doc) (DT doc) i)) i) sts t0).
+Proof.
+  induction sts as [|st sts IH]; intros doc d' Hall Hrun.
+  - cbn in Hrun. subst d'. repeat split; auto.
+  - inversion Hall as [|? ? (f & t & Er) Hrest]; subst. cbn [RunV] in Hrun. destruct Hrun as (Hd & d1 & Ha & Hr).
+    assert (Hft : f <= t).
+    { destruct (apply_mark_inv s _ _ _ _ _ Er Ha) as (old & g & parent & _ & _ & E). exact (node_replace_le _ _ _ _ _ E). }
+    destruct (mark_step_root s _ _ _ _ _ Er Ha) as (Hrty & Hto).
+    pose proof (mark_step_normalised s st f t doc d1 Hd Hft Er Ha) as E1.
+    destruct (IH d1 d' Hrest Hr) as (R1 & L1 & C1 & N1). rewrite Hrty in *.
+    assert (Hc : forall i, ctxT (node_ty s doc) (DT d1) i = ctxT (node_ty s doc) (DT doc) i)
+      by (intros i; rewrite E1; apply ctxT_remarkedT; exact Hft).
+    split; [exact R1|]. split; [rewrite L1, E1; apply remarkedT_length; assumption|].
+    split; [intros i; rewrite C1; apply Hc|].
+    intros i t0 Hn. cbn [fold_left].
+    pose proof (remarkedT_nth s (step_updN s st) (node_ty s doc) f t (DT doc) i t0 Hft Hto Hn) as H1. rewrite <- E1 in H1.
+    rewrite (N1 i _ H1), Hc. f_equal. f_equal. unfold apply_tok, touches_tok. rewrite Er. reflexivity.
 Qed.
 
 End WithSchema.
